@@ -14,10 +14,15 @@ git apply $D/patch.diff || { echo "PATCH DOES NOT APPLY"; git -C /repo worktree 
 PYTHONPATH=$W/src /venv/bin/python -m pytest -q -p no:cacheprovider tests --deselect tests/test_e2e.py > $W.tests.log 2>&1; RT=$?
 PYTHONPATH=$W/src /venv/bin/python $D/demo.py > $W.demo1.log 2>&1; R1=$?
 echo "demo_unchanged=$R0 tests_with_patch=$RT ($(tail -1 $W.tests.log)) demo_with_patch=$R1"
-cd /verif
+# run the checks from a snapshot of /verif, so that edits made meanwhile do not disturb them
+SNAP=$W.verif
+rm -rf $SNAP; mkdir -p $SNAP
+rsync -a --exclude .git --exclude .work --exclude replays --exclude evidence --exclude seeded /verif/ $SNAP/
+cd $SNAP
 for C in $CHECKS; do
   VERIF_NO_EVIDENCE=1 PYTHONPATH=$W/src ./check $C --tier quick > /tmp/ver/check-$P-$(basename $D)-$C.log 2>&1; RC=$?
   echo "check $C rc=$RC violations=$(grep -c '^VIOLATION' /tmp/ver/check-$P-$(basename $D)-$C.log) $(grep '^VIOLATION' -A1 /tmp/ver/check-$P-$(basename $D)-$C.log | sed -n 2p | cut -c1-160)"
   tail -1 /tmp/ver/check-$P-$(basename $D)-$C.log | cut -c1-200
 done
+cd /verif; rm -rf $SNAP
 git -C /repo worktree remove --force $W; rm -f $W.demo0.log $W.tests.log $W.demo1.log
